@@ -217,6 +217,38 @@ class delete_bond_attribute(Contract):
         return {"battr_has": lambda b, kk: z3.And(v.battr_has(b, kk), z3.Not(z3.And(b == nb, kk == k)))}
 
 
+class remove_atom(Contract):
+    """Removing an atom removes its bonds and every descriptor / stereo change that mentions it."""
+
+    def args(self, it, g, cname):
+        a = A_("a")
+        return [a], {}, {"a": a}
+
+    def rejected(self, v, s, cname):
+        return z3.Not(v.atom(s["a"]))
+
+    def spec(self, v, s, cname):
+        a = s["a"]
+        sp = {
+            "atom": lambda x: z3.And(v.atom(x), x != a),
+            "bond": lambda b: z3.And(v.bond(b), BondS.lo(b) != a, BondS.hi(b) != a),
+        }
+        if cname in STEREO:
+            sp["as"] = lambda x: z3.If(z3.And(v.as_has(x), z3.Not(d_mentions(v.as_val(x), a))), osome(v.as_val(x)), ODescrS.DNone)
+            sp["bs"] = lambda b: z3.If(z3.And(v.bs_has(b), z3.Not(d_mentions(v.bs_val(b), a))), osome(v.bs_val(b)), ODescrS.DNone)
+        if cname == "StereoCondensedReactionGraph":
+            def acv(x, c):
+                old = ac_view(v, x, c)
+                return z3.If(z3.And(ODescrS.is_DSome(old), z3.Not(d_mentions(ODescrS.dd(old), a))), old, ODescrS.DNone)
+
+            def bcv(b, c):
+                old = bc_view(v, b, c)
+                return z3.If(z3.And(ODescrS.is_DSome(old), z3.Not(d_mentions(ODescrS.dd(old), a))), old, ODescrS.DNone)
+
+            sp["ac"], sp["bc"] = acv, bcv
+        return sp
+
+
 # ---- stereo ------------------------------------------------------------------------------------------------
 def osome(d):
     return ODescrS.DSome(d)
@@ -494,6 +526,6 @@ QUERIES = {
     "bond_stereo_changes[]": _q("bond_stereo_changes", _bond_tuple, ("StereoCondensedReactionGraph",), "bond"),
 }
 
-MUTATORS = {c.__name__: c for c in (add_atom, set_atom_attribute, delete_atom_attribute, add_bond, add_formed_bond, add_broken_bond, add_fleeting_bond,
+MUTATORS = {c.__name__: c for c in (add_atom, remove_atom, set_atom_attribute, delete_atom_attribute, add_bond, add_formed_bond, add_broken_bond, add_fleeting_bond,
                                     remove_bond, set_bond_attribute, delete_bond_attribute, set_atom_stereo, delete_atom_stereo, set_bond_stereo,
                                     delete_bond_stereo, set_atom_stereo_change, set_bond_stereo_change, delete_atom_stereo_change, delete_bond_stereo_change)}
